@@ -89,7 +89,7 @@ static void check_polynomial_grid(TasmanianSparseGrid const &g, Cfg const &cfg, 
     size_t ns = space.size() / (size_t) d;
     if (ns == 0){ c.viol("quadrature:empty-declared-space:" + rn, "{}"); return; }
     int maxdeg = *std::max_element(space.begin(), space.end());
-    if (maxdeg > 160){ c.count("skipped:degree-above-160"); return; }
+    if (maxdeg > 800){ c.count("skipped:degree-above-800"); return; }
     // choose the members to test: all up to 300, otherwise a random sample plus all maximal elements (where an off-by-one in an exactness table shows)
     std::set<std::vector<int>> sset;
     for(size_t i=0; i<ns; i++) sset.insert(std::vector<int>(space.begin() + (long)(i * (size_t) d), space.begin() + (long)((i + 1) * (size_t) d)));
@@ -190,12 +190,14 @@ static void check_fourier_grid(TasmanianSparseGrid const &g, CaseCtx &c){
 }
 
 void mon_c02(CaseCtx &c, Rng &rng){
-    GenOpts go; go.families = (1u << fam_global) | (1u << fam_sequence) | (1u << fam_fourier); go.max_points = c.thorough ? 1500 : 500;
-    go.max_dims = c.thorough ? 4 : 3; go.min_outs = 0; go.max_outs = 1; go.custom = true; go.conformal = false; go.max_depth = 12;
+    GenOpts go; go.families = (1u << fam_global) | (1u << fam_sequence) | (1u << fam_fourier); go.max_points = c.thorough ? 1500 : 600;
+    go.max_dims = c.thorough ? 4 : 3; go.min_outs = rng.coin(0.7) ? 1 : 0; go.max_outs = 1; go.custom = true; go.conformal = false; go.max_depth = 12;
     Cfg cfg = gen_cfg(rng, go);
     if (cfg.family == fam_fourier && rng.coin(0.6)){ cfg.family = fam_global; cfg.rule = rng.coin(0.6) ? rng.pick(nonnested_global_rules()) : rng.pick(nested_global_rules()); // the rule tables are the subject
         if (uses_alpha(cfg.rule)){ cfg.alpha = rng.coin(0.25) ? (double) rng.range(0, 2) : rng.uni(-0.9, 3.0); cfg.beta = rng.coin(0.25) ? (double) rng.range(0, 2) : rng.uni(-0.9, 3.0); }
         if (!cfg.ta.empty() && is_unbounded(cfg.rule)) for(auto &v : cfg.tb) v = std::exp(rng.uni(-2.0, 2.0)); }
+    // the last tabulated level of a hard-coded table is reached only by deep 1-D (or strongly anisotropic) grids
+    if (cfg.family == fam_global && !cfg.custom && cfg.rule == rule_gausspatterson && rng.coin(0.5)){ cfg.dims = 1; cfg.type = type_level; cfg.depth = 8; cfg.aw.clear(); cfg.limits.clear(); if (!cfg.ta.empty()){ cfg.ta.resize(1); cfg.tb.resize(1); } }
     TasmanianSparseGrid g;
     std::string err;
     if (!make_grid(g, cfg, go.max_points, &err) || g.getNumPoints() == 0){ emit_begin(c, cfg.json()); c.inconc("make-failed"); return; }
@@ -211,6 +213,14 @@ void mon_c02(CaseCtx &c, Rng &rng){
             const double *lv = g.getLoadedValues();
             double s = 0, a = 0; for(int i=0; i<g.getNumLoaded(); i++){ s += qw[(size_t) i] * lv[i]; a += std::fabs(qw[(size_t) i] * lv[i]); }
             if (!(std::fabs(q[0] - s) <= 1e4 * EPS2 * (a + std::fabs(s)))) c.viol("quadrature:integrate-differs-from-weighted-sum:" + std::string(fam_name(cfg.family)), J().num("integrate", q[0]).num("weighted_sum", s).obj());
+            // the same after an overwriting reload (cached coefficients must follow the values)
+            if (c.nviol == 0){
+                std::vector<double> p2 = g.getLoadedPoints();
+                g.loadNeededValues(model_values(p2, cfg.dims, cfg.outs, 2, 0));
+                std::vector<double> q2 = g.integrate(); const double *lv2 = g.getLoadedValues();
+                double s2 = 0, a2 = 0; for(int i=0; i<g.getNumLoaded(); i++){ s2 += qw[(size_t) i] * lv2[i]; a2 += std::fabs(qw[(size_t) i] * lv2[i]); }
+                if (!(std::fabs(q2[0] - s2) <= 1e4 * EPS2 * (a2 + std::fabs(s2)))) c.viol("quadrature:integrate-differs-from-weighted-sum-after-reload:" + std::string(fam_name(cfg.family)), J().num("integrate", q2[0]).num("weighted_sum", s2).obj());
+            }
         }
     }catch(std::exception &e){ c.viol("quadrature:exception:" + exception_class(e), J().str("what", e.what()).obj()); return; }
     c.sig(cfg.sig() + "|" + std::to_string(cfg.depth) + (uses_alpha(cfg.rule) && cfg.family == fam_global ? "|ab" : ""));
